@@ -1050,6 +1050,9 @@ class OptionStore:
         if key in self.options:
             old_value = opt.value
             opt.set_value(new_value)
+            # An option that stops yielding to its parent changes state even
+            # if its own stored value happens to equal the new one.
+            changed |= opt.yielding
             opt.yielding = False
         else:
             assert key.subproject is not None
